@@ -40,7 +40,7 @@ run_one() {
   git -C /repo worktree remove --force $wt; rm -rf $S/out_$sha
 }
 export -f run_one; export S_DIR=$S
-cat $S/list.txt | xargs -P $J -L 1 bash -c 'run_one "$@"' _ > $S/table.txt
+cat $S/list.txt | tr "'" ' ' | xargs -d '\n' -P $J -I{} bash -c 'run_one {}' > $S/table.txt
 git -C /repo worktree prune
 { echo "# revert rehearsal against /repo $(git -C /repo rev-parse --short HEAD), $(date -u +%FT%TZ)"; sort -k1,1 $S/table.txt; } > /verif/seeded/revert_rehearsal.txt
 rm -rf $S
